@@ -216,10 +216,10 @@ def wire_asserts(fi):
 # rule groups
 
 
-def check_header_block(ck, env):
+def check_header_block(ck, env, RP="C01"):
     fi = ck.func(H1, "HTTP1Connection._read_message")
     reads = call_sites(fi, ".read_until_regex")
-    ck.floor("C01.header-block-delimiter", len(reads), 1, "read_until_regex calls in _read_message")
+    ck.floor(RP + ".header-block-delimiter", len(reads), 1, "read_until_regex calls in _read_message")
     ref_s = env.rx(HEADER_END, "search")
     ref_f = env.rx(HEADER_END, "fullmatch")
     for node, c in reads:
@@ -235,13 +235,13 @@ def check_header_block(ck, env):
             pat = pat.encode("latin1")
         ls, lf = env.rx(pat, "search"), env.rx(pat, "fullmatch")
         w = ls.difference_witness(ref_s)
-        ck.ob("C01.header-block-delimiter", fi, c, w is None, "the header block ends at the first blank line: search-language of the delimiter equals (CR? LF){2}%s" % ("" if w is None else " (differs on %r: %s)" % w))
+        ck.ob(RP + ".header-block-delimiter", fi, c, w is None, "the header block ends at the first blank line: search-language of the delimiter equals (CR? LF){2}%s" % ("" if w is None else " (differs on %r: %s)" % w))
         w2 = lf.witness_not_in(ref_f)
-        ck.ob("C01.header-block-delimiter", fi, c, w2 is None, "the delimiter itself matches nothing but (CR? LF){2}%s" % ("" if w2 is None else " (also matches %r)" % w2))
+        ck.ob(RP + ".header-block-delimiter", fi, c, w2 is None, "the delimiter itself matches nothing but (CR? LF){2}%s" % ("" if w2 is None else " (also matches %r)" % w2))
 
 
-def check_request_line(ck, env):
-    R = "C01.request-line"
+def check_request_line(ck, env, RP="C01"):
+    R = RP + ".request-line"
     fi = ck.func(HU, "parse_request_start_line")
     cfg = fi.cfg
     rcalls = env.calls(fi)
@@ -332,7 +332,7 @@ def _dict_attr(ck):
     raise AnalysisError("cannot derive the multimap attribute from HTTPHeaders.get_all")
 
 
-def check_header_fields(ck, env):
+def check_header_fields(ck, env, RP="C01"):
     da = _dict_attr(ck)
     add = ck.func(HU, "HTTPHeaders.add")
     pl = ck.func(HU, "HTTPHeaders.parse_line")
@@ -357,7 +357,7 @@ def check_header_fields(ck, env):
     name_p, value_p = ps[0], ps[1]
     rc = env.calls(add)
     stores = _store_nodes(add, da)
-    ck.floor("C01.header-name", len(stores), 2, "stores into the header multimap in HTTPHeaders.add")
+    ck.floor(RP + ".header-name", len(stores), 1, "stores into the header multimap in HTTPHeaders.add")
     name_calls = [x for x in rc if x[3] is not None and q.dotted(x[3]) == name_p]
     val_calls = [x for x in rc if x[3] is not None and value_p in q.names_in(x[3]) and not _is_blacklist(add, x[0])]
     npos, nneg = set(), set()
@@ -365,28 +365,28 @@ def check_header_fields(ck, env):
         p, n = truthy_edges(add, lambda e, c=c: e is c)
         npos |= p
         nneg |= n
-        ck.ob("C01.header-name", add, c, m == "fullmatch", "the field name is tested with fullmatch; found %s" % m)
+        ck.ob(RP + ".header-name", add, c, m == "fullmatch", "the field name is tested with fullmatch; found %s" % m)
         w = env.rx(pat, m).difference_witness(token)
-        ck.ob("C01.header-name", add, c, w is None, "field-name language equals RFC 9110 token%s" % ("" if w is None else " (differs on %r: %s)" % w))
+        ck.ob(RP + ".header-name", add, c, w is None, "field-name language equals RFC 9110 token%s" % ("" if w is None else " (differs on %r: %s)" % w))
     vpos, vneg = set(), set()
     for c, m, pat, subj in val_calls:
         p, n = truthy_edges(add, lambda e, c=c: e is c)
         vpos |= p
         vneg |= n
-        value_lang("C01.header-value", add, c, m, pat, "the field value")
+        value_lang(RP + ".header-value", add, c, m, pat, "the field value")
     off = flag_off(add.cfg, flag)
     for node, v in stores:
-        ck.ob("C01.header-name", add, node.ast, only_through(add.cfg, node, npos), "store into the multimap only after the name matched token")
-        ck.ob("C01.header-name", add, node.ast, not rebinds_between(add.cfg, npos, node, {name_p}), "the checked name is not re-bound before the store")
-        ck.ob("C01.header-value", add, node.ast, only_through(add.cfg, node, vpos | off), "store into the multimap only after the value matched field-value (HTTP mode)")
-        ck.ob("C01.header-value", add, node.ast, v is not None and q.dotted(v) == value_p and not rebinds_between(add.cfg, vpos, node, {value_p}), "the stored value is the checked parameter")
+        ck.ob(RP + ".header-name", add, node.ast, only_through(add.cfg, node, npos), "store into the multimap only after the name matched token")
+        ck.ob(RP + ".header-name", add, node.ast, not rebinds_between(add.cfg, npos, node, {name_p}), "the checked name is not re-bound before the store")
+        ck.ob(RP + ".header-value", add, node.ast, only_through(add.cfg, node, vpos | off), "store into the multimap only after the value matched field-value (HTTP mode)")
+        ck.ob(RP + ".header-value", add, node.ast, v is not None and q.dotted(v) == value_p and not rebinds_between(add.cfg, vpos, node, {value_p}), "the stored value is the checked parameter")
     ok, n = leads_to_raise(add.cfg, nneg, _is_input_error)
-    ck.ob("C01.header-name", add, add.node, ok and n > 0, "an invalid field name raises HTTPInputError", construct="no-match edge (name)")
+    ck.ob(RP + ".header-name", add, add.node, ok and n > 0, "an invalid field name raises HTTPInputError", construct="no-match edge (name)")
     ok, n = leads_to_raise(add.cfg, vneg, _is_input_error)
-    ck.ob("C01.header-value", add, add.node, ok and n > 0, "an invalid field value raises HTTPInputError", construct="no-match edge (value)")
+    ck.ob(RP + ".header-value", add, add.node, ok and n > 0, "an invalid field value raises HTTPInputError", construct="no-match edge (value)")
 
     # ---- parse_line: continuation lines and the name/value split
-    R = "C01.header-continuation"
+    R = RP + ".header-continuation"
     plflag, _d = _flag_param(pl)
     pstores = _store_nodes(pl, da)
     ck.floor(R, len(pstores), 1, "continuation stores in HTTPHeaders.parse_line")
@@ -413,7 +413,7 @@ def check_header_fields(ck, env):
         ok, n = leads_to_raise(pl.cfg, neg, _is_input_error)
         ck.ob(R, pl, pl.node, ok and n > 0, "an invalid continuation raises HTTPInputError", construct="no-match edge (continuation)")
     # flag forwarding and defaults (strict mode is what the server uses)
-    R = "C01.strict-header-mode"
+    R = RP + ".strict-header-mode"
     for f in (add, pl, parse):
         fl, d = _flag_param(f)
         ck.ob(R, f, f.node, d.value is True, "%s validates in HTTP (latin-1 bytes) mode by default" % f.qualname, construct="default of %s" % fl)
@@ -426,7 +426,7 @@ def check_header_fields(ck, env):
                 n += 1
                 kv = q.kwarg(c, tfl)
                 ck.ob(R, f, c, kv is None or (isinstance(kv, ast.Name) and kv.id == fl) or q.is_const(kv, True), "%s forwards the validation mode to %s" % (f.qualname, callee))
-    ck.floor(R, n, 3, "parse_line/add forwarding calls")
+    ck.floor(R, n, 2, "parse_line/add forwarding calls")
     ph = ck.func(H1, "HTTP1Connection._parse_headers")
     pc = [c for c in q.calls(ph.node) if resolve_call(ck.repo, ph, c) is parse]
     ck.floor(R, len(pc), 1, "HTTPHeaders.parse calls in _parse_headers")
@@ -435,7 +435,7 @@ def check_header_fields(ck, env):
         kv = q.kwarg(c, pfl)
         ck.ob(R, ph, c, (kv is None or q.is_const(kv, True)) and not any(k.arg is None for k in c.keywords), "the connection parses header blocks in strict HTTP mode")
     # every line of the block goes through parse_line
-    R = "C01.header-line-split"
+    R = RP + ".header-line-split"
     n = 0
     for f in (pl,):
         pm = q.parent_map(f.node)
@@ -450,7 +450,75 @@ def check_header_fields(ck, env):
     ck.floor(R, n, 1, "name/value splits in parse_line")
 
 
-def check_read_body(ck, tree):
+def check_multimap_for_framing(ck, RP="C01"):
+    """What conflicting-Content-Length / multiple-Host detection relies on in the header multimap: a repeated
+    field is *added* to the earlier ones (never replaces them), the combined value joins them with a comma, and
+    obs-fold continuation goes to the field added last."""
+    R = RP + ".duplicate-fields-kept"
+    da = _dict_attr(ck)
+    add = ck.func(HU, "HTTPHeaders.add")
+    cfg = add.cfg
+    stores = _store_nodes(add, da)
+    keys = set()
+    for node, v in stores:
+        st = node.ast
+        if isinstance(st, ast.Assign):
+            for t in st.targets:
+                if isinstance(t, ast.Subscript) and isinstance(t.slice, ast.Name):
+                    keys.add(t.slice.id)
+        elif isinstance(st, ast.Expr):
+            f = st.value.func.value
+            if isinstance(f, ast.Subscript) and isinstance(f.slice, ast.Name):
+                keys.add(f.slice.id)
+    if len(keys) != 1:
+        raise AnalysisError("HTTPHeaders.add: cannot identify the (normalised) key of the stores: %s" % sorted(keys))
+    K = keys.pop()
+
+    def present(a):
+        if isinstance(a, ast.Compare) and len(a.ops) == 1 and isinstance(a.ops[0], ast.In) and q.dotted(a.left) == K and q.dotted(a.comparators[0]) in ("self", "self." + da):
+            return True
+        return None
+
+    absent_e = atom_edges(cfg, lambda a: None if present(a) is None else False)
+    present_e = atom_edges(cfg, present)
+    n_rep = n_app = 0
+    for node, v in stores:
+        if isinstance(node.ast, ast.Assign):
+            n_rep += 1
+            ck.ob(R, add, node.ast, only_through(cfg, node, absent_e), "a field value replaces the stored list only when the name is not present yet (a repeated Content-Length/Host must not overwrite the first)")
+        else:
+            n_app += 1
+            ck.ob(R, add, node.ast, isinstance(node.ast, ast.Expr) and node.ast.value.func.attr == "append", "a repeated field is appended after the earlier values")
+    if not n_app:
+        ck.ob(R, add, add.node, False, "a repeated field is appended after the earlier values (no append store found)", construct="add: no append store")
+    # every normal exit stored something
+    ids = {n.id for n, _v in stores}
+    r = reach_without(cfg, (), follow_exc=False, stop=lambda n: n.id in ids)
+    ck.ob(R, add, add.node, cfg.exit.id not in r, "add() stores the value on every normal path (no silently dropped field)", construct="add: exit without store")
+    gi = ck.func(HU, "HTTPHeaders.__getitem__")
+    joins = [c for c in q.calls(gi.node) if q.call_attr(c) == "join" and isinstance(c.func.value, ast.Constant)]
+    ck.floor(R, len(joins), 1, "join of the values in HTTPHeaders.__getitem__")
+    for c in joins:
+        ck.ob(R, gi, c, isinstance(c.func.value.value, str) and "," in c.func.value.value and len(c.args) == 1 and da in q.unparse(c.args[0]), "the combined field value joins all values with a comma (the conflict checks look for ',')")
+    # continuation target
+    pl = ck.func(HU, "HTTPHeaders.parse_line")
+    lk = None
+    for node, v in _store_nodes(pl, da):
+        tgt = node.ast.target if isinstance(node.ast, ast.AugAssign) else None
+        if tgt is not None and isinstance(tgt, ast.Subscript) and isinstance(tgt.value, ast.Subscript) and (q.dotted(tgt.value.slice) or "").startswith("self."):
+            lk = q.dotted(tgt.value.slice)
+    if lk is None:
+        raise AnalysisError("parse_line: cannot identify the attribute naming the field a continuation extends")
+    sets = {n.id for n in cfg.stmt_nodes(lambda n: n.kind == "stmt" and isinstance(n.ast, ast.Assign) and lk in q.assigned_paths(n.ast) and q.dotted(n.ast.value) == K)}
+    r = reach_without(cfg, (), follow_exc=False, stop=lambda n: n.id in sets)
+    ck.ob(RP + ".header-continuation", add, add.node, cfg.exit.id not in r, "add() records the field it stored as the target of a following obs-fold continuation (%s = %s on every normal path)" % (lk, K), construct="add: exit without %s update" % lk)
+    for node, v in _store_nodes(pl, da):
+        tgt = node.ast.target if isinstance(node.ast, ast.AugAssign) else None
+        ok = tgt is not None and isinstance(tgt, ast.Subscript) and q.is_const(getattr(tgt.slice, "operand", None), 1) and isinstance(tgt.slice, ast.UnaryOp) and isinstance(tgt.value, ast.Subscript) and q.dotted(tgt.value.slice) == lk
+        ck.ob(RP + ".header-continuation", pl, node.ast, ok, "a continuation is appended to the last value of the field added last")
+
+
+def check_read_body(ck, tree, RP="C01"):
     fi = ck.func(H1, "HTTP1Connection._read_body")
     cfg = fi.cfg
     repo = ck.repo
@@ -460,7 +528,7 @@ def check_read_body(ck, tree):
         raise AnalysisError("_read_body: cannot identify the headers parameter (Content-Length membership tests on %s)" % sorted(hps))
     hp = hps.pop()
     # --- conflicting Content-Length
-    R = "C01.cl-conflict"
+    R = RP + ".cl-conflict"
     rewrites = [n for n in cfg.stmt_nodes(lambda n: n.kind == "stmt" and isinstance(n.ast, ast.Assign) and any(_hdr_get(t, "Content-Length", hp) for t in n.ast.targets))]
     for node in rewrites:
         pieces = sorted(x for x in q.names_in(node.ast.value) if x in q.local_names(fi.node))
@@ -468,7 +536,7 @@ def check_read_body(ck, tree):
             raise AnalysisError("Content-Length rewrite of an unknown shape at %s" % fi.site(node.ast))
         P = pieces[0]
 
-        def all_equal(a, P=P):
+        def all_equal(a, RP=RP):
             # any(x != P[k] for x in P) -> all-equal when False ; all(x == P[k] for x in P) -> when True ; len(set(P)) == 1
             if isinstance(a, ast.Call) and q.call_attr(a) in ("any", "all") and len(a.args) == 1 and isinstance(a.args[0], (ast.GeneratorExp, ast.ListComp)):
                 g = a.args[0]
@@ -500,10 +568,15 @@ def check_read_body(ck, tree):
         neg = atom_edges(cfg, lambda a: (None if all_equal(a) is None else (not all_equal(a))))
         ok, n = leads_to_raise(cfg, neg, _is_input_error)
         ck.ob(R, fi, node.ast, ok and n > 0, "unequal Content-Length pieces raise HTTPInputError", construct="unequal-pieces edge")
-    ck.note("C01.cl-conflict: %d Content-Length rewrite site(s) in _read_body" % len(rewrites))
+    from ..rx import Rx as _Rx
+    for c in q.calls(fi.node):
+        if q.dotted(c.func) == "re.split" and c.args and isinstance(c.args[0], ast.Constant) and isinstance(c.args[0].value, str):
+            w = _Rx.from_pattern(c.args[0].value).witness_not_in(_Rx.from_pattern(r",[ \t]*|,\s*"))
+            ck.ob(R, fi, c, w is None, "Content-Length list members are separated at commas (plus following whitespace) only%s" % ("" if w is None else " (also splits at %r)" % w))
+    ck.note("%s: %d Content-Length rewrite site(s) in _read_body" % (R, len(rewrites)))
 
     # --- integer Content-Length -> fixed reader
-    R = "C01.cl-integer"
+    R = RP + ".cl-integer"
     fixed = [(n, c) for n, c in call_sites(fi, "self._read_fixed_body")]
     ck.floor(R, len(fixed), 1, "_read_fixed_body call sites")
     parse_int = repo.func(H1, "parse_int")
@@ -535,7 +608,7 @@ def check_read_body(ck, tree):
               "the fixed-length reader runs only when a Content-Length was parsed")
 
     # --- selection
-    R = "C01.body-selection"
+    R = RP + ".body-selection"
     te = repo.func(H1, "is_transfer_encoding_chunked")
     te_calls = [(n, c) for n, c in cfg.find(lambda x: isinstance(x, ast.Call) and resolve_call(repo, fi, x) is te)]
     for node, c in te_calls:
@@ -554,7 +627,7 @@ def check_read_body(ck, tree):
         ck.ob(R, fi, c, only_through(cfg, node, client), "a request without Content-Length/Transfer-Encoding has no body: read-until-close is client-only")
 
 
-def check_transfer_encoding(ck):
+def check_transfer_encoding(ck, RP="C01"):
     fi = ck.func(H1, "is_transfer_encoding_chunked")
     cfg = fi.cfg
     hp = [p for p in fi.params()][0]
@@ -592,18 +665,18 @@ def check_transfer_encoding(ck):
         anchor = node.ast if node.ast is not None else fi.node
         if q.is_const(v, True) if v is not None else False:
             n_true += 1
-            ck.ob("C01.te-strict", fi, anchor, only_through(cfg, node, eq), "'chunked' is recognised by equality with the (lower-cased) Transfer-Encoding value — not by substring/prefix/suffix tests")
-            ck.ob("C01.cl-te-conflict", fi, anchor, only_through(cfg, node, cl_absent), "Transfer-Encoding together with Content-Length is rejected before chunked framing is chosen")
+            ck.ob(RP + ".te-strict", fi, anchor, only_through(cfg, node, eq), "'chunked' is recognised by equality with the (lower-cased) Transfer-Encoding value — not by substring/prefix/suffix tests")
+            ck.ob(RP + ".cl-te-conflict", fi, anchor, only_through(cfg, node, cl_absent), "Transfer-Encoding together with Content-Length is rejected before chunked framing is chosen")
         else:
-            ck.ob("C01.te-other-raises", fi, anchor, only_through(cfg, node, te_absent), "a false/absent result is returned only when there is no Transfer-Encoding header (any other coding raises)", construct=None if v is None else None)
-    ck.floor("C01.te-strict", n_true, 1, "return True sites in is_transfer_encoding_chunked")
-    ck.floor("C01.te-other-raises", len(cfg.pred[cfg.exit.id]) - n_true, 1, "non-true returns in is_transfer_encoding_chunked")
+            ck.ob(RP + ".te-other-raises", fi, anchor, only_through(cfg, node, te_absent), "a false/absent result is returned only when there is no Transfer-Encoding header (any other coding raises)", construct=None if v is None else None)
+    ck.floor(RP + ".te-strict", n_true, 1, "return True sites in is_transfer_encoding_chunked")
+    ck.floor(RP + ".te-other-raises", len(cfg.pred[cfg.exit.id]) - n_true, 1, "non-true returns in is_transfer_encoding_chunked")
     cl_present = atom_edges(cfg, lambda a: None if cl_abs(a) is None else (not cl_abs(a)))
     ok, n = leads_to_raise(cfg, cl_present, _is_input_error)
-    ck.ob("C01.cl-te-conflict", fi, fi.node, ok and n > 0, "Content-Length in a message with Transfer-Encoding raises HTTPInputError", construct="Content-Length-present edge")
+    ck.ob(RP + ".cl-te-conflict", fi, fi.node, ok and n > 0, "Content-Length in a message with Transfer-Encoding raises HTTPInputError", construct="Content-Length-present edge")
 
 
-def check_ints(ck, env, tree):
+def check_ints(ck, env, tree, RP="C01"):
     """SINT: strict guard for ints parsed in http1connection.py (framing), crash-freedom everywhere in the tree."""
     repo = ck.repo
     n_strict = n_all = 0
@@ -657,20 +730,20 @@ def check_ints(ck, env, tree):
                 handled = bool(sites) and all(handler_for(cf, cc, "ValueError") is not None for cf, cc in sites)
             if f.file == H1:
                 n_strict += 1
-                ck.ob("C01.sint", f, c, guarded and exact, "int() of wire text in the framing code is guarded by fullmatch of an ASCII-%s regex on the same operand" % ("digit" if base == 10 else "hex-digit"))
-            ck.ob("C01.int-no-crash", f, c, handled or (guarded and bounded), "int() of wire text cannot escape as ValueError: handler at every call site, or an ASCII-digit guard with a length bound <= %d" % INT_LIMIT)
-    ck.floor("C01.sint", n_strict, 2, "int() sites in http1connection.py's read tree")
-    ck.floor("C01.int-no-crash", n_all, 3, "int() sites on wire text in the read tree")
+                ck.ob(RP + ".sint", f, c, guarded and exact, "int() of wire text in the framing code is guarded by fullmatch of an ASCII-%s regex on the same operand" % ("digit" if base == 10 else "hex-digit"))
+            ck.ob(RP + ".int-no-crash", f, c, handled or (guarded and bounded), "int() of wire text cannot escape as ValueError: handler at every call site, or an ASCII-digit guard with a length bound <= %d" % INT_LIMIT)
+    ck.floor(RP + ".sint", n_strict, 2, "int() sites in http1connection.py's read tree")
+    ck.floor(RP + ".int-no-crash", n_all, 3, "int() sites on wire text in the read tree")
 
 
-def check_chunked(ck, tree):
+def check_chunked(ck, tree, RP="C01"):
     repo = ck.repo
     fi = ck.func(H1, "HTTP1Connection._read_chunked_body")
     cfg = fi.cfg
     hexint = repo.func(H1, "parse_hex_int")
     binds_all = {}
     # size line
-    R = "C01.chunk-size-line"
+    R = RP + ".chunk-size-line"
     size_reads = call_sites(fi, ".read_until")
     ck.floor(R, len(size_reads), 1, "chunk-size line reads")
     size_vars = set()
@@ -687,7 +760,7 @@ def check_chunked(ck, tree):
             if isinstance(st, ast.Assign) and isinstance(st.targets[0], ast.Name) and (q.names_in(st.value) & size_vars) and not any(_stream_read(x) for x in ast.walk(st.value)):
                 len_vars.add(st.targets[0].id)
     for node, c in hx:
-        a = c.args[0] if c.args else None
+        a = _expand(c.args[0], single_bindings(fi.node), keep=size_vars) if c.args else None
         while isinstance(a, ast.Call) and q.call_attr(a) in ("native_str", "to_unicode") and a.args:
             a = a.args[0]
         ok = isinstance(a, ast.Subscript) and q.dotted(a.value) in size_vars and isinstance(a.slice, ast.Slice) and a.slice.lower is None and isinstance(a.slice.upper, ast.UnaryOp) and isinstance(a.slice.upper.op, ast.USub) and q.is_const(a.slice.upper.operand, 2)
@@ -700,7 +773,7 @@ def check_chunked(ck, tree):
     if not len_vars:
         raise AnalysisError("_read_chunked_body: the parsed chunk length is not bound to a local")
     # end only at the zero chunk
-    R = "C01.chunk-end"
+    R = RP + ".chunk-end"
 
     def zero(a):
         if isinstance(a, ast.Compare) and len(a.ops) == 1 and isinstance(a.ops[0], ast.Eq) and q.dotted(a.left) in len_vars and q.is_const(a.comparators[0], 0):
@@ -715,13 +788,29 @@ def check_chunked(ck, tree):
     for node in exits:
         ck.ob(R, fi, node.ast if node.ast is not None else fi.node, only_through(cfg, node, z), "the chunked body ends only after a chunk of size 0")
     # terminators: every fixed-size non-partial read is compared with CRLF before the next read / return
-    R = "C01.chunk-terminator"
-    term = [(n, c) for n, c in call_sites(fi, ".read_bytes") if q.kwarg(c, "partial") is None and len(c.args) == 1]
-    ck.floor(R, len(term), 2, "terminator reads in _read_chunked_body")
-    for node, c in term:
-        ck.ob(R, fi, c, q.is_const(c.args[0], 2), "the terminator read takes exactly 2 bytes")
+    R = RP + ".chunk-terminator"
+    # terminator reads: in the reader itself, or in a helper method of the same class that the reader awaits
+    # (a refactoring into `await self._expect_crlf()` is decided inside the helper)
+    sites = [(fi, n, c) for n, c in call_sites(fi, ".read_bytes") if q.kwarg(c, "partial") is None and len(c.args) == 1]
+    helper_calls = 0
+    for hc in q.calls(fi.node):
+        h = resolve_call(repo, fi, hc)
+        if h is not None and h is not fi and h.file == H1 and h.name not in ("_read_chunked_body", "_read_fixed_body", "_read_body_until_close"):
+            hs = [(h, n, c) for n, c in call_sites(h, ".read_bytes") if q.kwarg(c, "partial") is None and len(c.args) == 1]
+            if hs:
+                helper_calls += 1
+                ck.use(h)
+                sites.extend(hs)
+    ck.floor(R, len([x for x in sites if x[0] is fi]) + helper_calls, 2, "terminator reads in _read_chunked_body (direct or through a helper)")
+    seen_sites = set()
+    for hf, node, c in sites:
+        if (hf.qualname, node.id) in seen_sites:
+            continue
+        seen_sites.add((hf.qualname, node.id))
+        hcfg = hf.cfg
+        ck.ob(R, hf, c, q.is_const(c.args[0], 2), "the terminator read takes exactly 2 bytes")
         if not (isinstance(node.ast, ast.Assign) and isinstance(node.ast.targets[0], ast.Name)):
-            ck.ob(R, fi, c, False, "the terminator bytes are kept for comparison with CRLF")
+            ck.ob(R, hf, c, False, "the terminator bytes are kept for comparison with CRLF")
             continue
         X = node.ast.targets[0].id
 
@@ -730,21 +819,21 @@ def check_chunked(ck, tree):
                     and ((q.dotted(x.left) == X and isinstance(x.comparators[0], ast.Constant) and x.comparators[0].value == b"\r\n")
                          or (q.dotted(x.comparators[0]) == X and isinstance(x.left, ast.Constant) and x.left.value == b"\r\n")))
 
-        ok, bad = forward_until(cfg, node, lambda n: node_mentions(n, is_cmp), lambda n: node_mentions(n, _stream_read) or (n.kind == "stmt" and isinstance(n.ast, ast.Return)))
-        ck.ob(R, fi, c, ok, "the 2 bytes after chunk data / the last chunk are compared with CRLF before anything else is read")
-        mism = atom_edges(cfg, lambda a, is_cmp=is_cmp: False if is_cmp(a) else None)
-        mism = {e for e in mism if e[0] in reach_without(cfg, (), start=node.id, follow_exc=False)}
+        ok, bad = forward_until(hcfg, node, lambda n: node_mentions(n, is_cmp), lambda n: node_mentions(n, _stream_read) or (n.kind == "stmt" and isinstance(n.ast, ast.Return)))
+        ck.ob(R, hf, c, ok, "the 2 bytes after chunk data / the last chunk are compared with CRLF before anything else is read")
+        mism = atom_edges(hcfg, lambda a, is_cmp=is_cmp: False if is_cmp(a) else None)
+        mism = {e for e in mism if e[0] in reach_without(hcfg, (), start=node.id, follow_exc=False)}
         if mism:
-            okr, n = leads_to_raise(cfg, mism, lambda cls: cls is not None)
-            ck.ob(R, fi, c, okr, "a wrong chunk terminator aborts the message (raise), it is not skipped")
+            okr, n = leads_to_raise(hcfg, mism, lambda cls: cls is not None)
+            ck.ob(R, hf, c, okr, "a wrong chunk terminator aborts the message (raise), it is not skipped")
     # counted data reads
-    check_counted_reads(ck, fi, len_vars)
+    check_counted_reads(ck, fi, len_vars, RP=RP)
 
 
-def check_counted_reads(ck, fi, length_sources):
+def check_counted_reads(ck, fi, length_sources, RP="C01"):
     """Data reads (``read_bytes(..., partial=True)``): size bounded by the remaining count, count decremented by
     exactly the bytes received, loop on the count, and the bytes delivered are those read."""
-    R = "C01.body-byte-count"
+    R = RP + ".body-byte-count"
     cfg = fi.cfg
     pm = q.parent_map(fi.node)
     reads = [(n, c) for n, c in call_sites(fi, ".read_bytes") if q.kwarg(c, "partial") is not None]
@@ -788,7 +877,7 @@ def check_counted_reads(ck, fi, length_sources):
             ck.ob(R, fi, dcall, len(dcall.args) == 1 and q.dotted(dcall.args[0]) == D, "exactly the bytes just read are delivered to the delegate")
 
 
-def check_error_discipline(ck, tree):
+def check_error_discipline(ck, tree, RP="C01"):
     repo = ck.repo
     rm = ck.func(H1, "HTTP1Connection._read_message")
     loop = ck.func(H1, "HTTP1ServerConnection._server_request_loop")
@@ -817,10 +906,10 @@ def check_error_discipline(ck, tree):
         n_f += 1
         bad = wire_asserts(f)
         for a in bad:
-            ck.ob("C01.no-assert-on-wire", f, a, False, "peer-controlled data is validated with 'raise HTTPInputError', never with assert (AssertionError is logged as an uncaught error, and vanishes under -O)")
+            ck.ob(RP + ".no-assert-on-wire", f, a, False, "peer-controlled data is validated with 'raise HTTPInputError', never with assert (AssertionError is logged as an uncaught error, and vanishes under -O)")
         if not bad:
-            ck.ob("C01.no-assert-on-wire", f, f.node, True, "no assert on peer-controlled data in %s" % f.qualname)
-    ck.floor("C01.no-assert-on-wire", n_f, 14, "functions in the read call tree")
+            ck.ob(RP + ".no-assert-on-wire", f, f.node, True, "no assert on peer-controlled data in %s" % f.qualname)
+    ck.floor(RP + ".no-assert-on-wire", n_f, 14, "functions in the read call tree")
 
     # 2. explicit raises
     n_r = 0
@@ -842,8 +931,8 @@ def check_error_discipline(ck, tree):
             if not ok:
                 sites = call_sites_in(tree, repo, f)
                 ok = bool(sites) and all(handler_for(cf, cc, short) is not None for cf, cc in sites)
-            ck.ob("C01.raise-discipline", f, st, ok, "every exception raised on the read path is HTTPInputError / a quiet stream error, or is converted by a handler at every call site")
-    ck.floor("C01.raise-discipline", n_r, 15, "raise statements in the read call tree")
+            ck.ob(RP + ".raise-discipline", f, st, ok, "every exception raised on the read path is HTTPInputError / a quiet stream error, or is converted by a handler at every call site")
+    ck.floor(RP + ".raise-discipline", n_r, 15, "raise statements in the read call tree")
 
     # 3. decode of wire bytes
     n_d = 0
@@ -857,14 +946,14 @@ def check_error_discipline(ck, tree):
                 n_d += 1
                 codec = c.args[0] if c.args else q.kwarg(c, "encoding")
                 total = isinstance(codec, ast.Constant) and str(codec.value).lower().replace("-", "").replace("_", "") in ("latin1", "iso88591", "l1")
-                ck.ob("C01.decode-total", f, c, total or handler_for(f, c, "UnicodeDecodeError") is not None, "wire bytes are decoded with a total codec (latin-1) or under a handler")
+                ck.ob(RP + ".decode-total", f, c, total or handler_for(f, c, "UnicodeDecodeError") is not None, "wire bytes are decoded with a total codec (latin-1) or under a handler")
             elif q.call_attr(c) in ("native_str", "to_unicode") and c.args and (q.names_in(c.args[0]) & bytes_names) and not any(isinstance(x, ast.Call) and q.call_attr(x) == "decode" for x in ast.walk(c.args[0])):
                 n_d += 1
-                ck.ob("C01.decode-total", f, c, handler_for(f, c, "UnicodeDecodeError") is not None, "UTF-8 decoding of raw wire bytes happens under a ValueError/UnicodeDecodeError handler")
-    ck.floor("C01.decode-total", n_d, 2, "decode sites on wire bytes")
+                ck.ob(RP + ".decode-total", f, c, handler_for(f, c, "UnicodeDecodeError") is not None, "UTF-8 decoding of raw wire bytes happens under a ValueError/UnicodeDecodeError handler")
+    ck.floor(RP + ".decode-total", n_d, 2, "decode sites on wire bytes")
 
     # 4. HTTPInputError passes the delegate logging context untouched
-    R = "C01.input-error-passthrough"
+    R = RP + ".input-error-passthrough"
     ex = ck.func(H1, "_ExceptionLoggingContext.__exit__")
     passes = atom_edges(ex.cfg, lambda a: False if (isinstance(a, ast.Call) and q.call_attr(a) == "isinstance" and len(a.args) == 2 and _is_input_error(q.dotted(a.args[1]))) else None)
     n = 0
@@ -881,8 +970,8 @@ def check_error_discipline(ck, tree):
         ck.ob(R, rm, c, bool(w) and any(contains(outer[0], x) and any(x is s or contains(s, x) for s in outer[0].body) for x in w), "delegate.headers_received runs inside the logging context inside the HTTPInputError try")
 
 
-def check_host(ck, env):
-    R = "C01.host-validated"
+def check_host(ck, env, RP="C01"):
+    R = RP + ".host-validated"
     fi = ck.func(HU, "HTTPServerRequest.__init__")
     cfg = fi.cfg
     rc = [x for x in env.calls(fi) if x[3] is not None and (q.dotted(x[3]) or "").startswith("self.")]
@@ -932,8 +1021,8 @@ def check_host(ck, env):
     ck.floor(R, n_lookup, 1, "Host header lookups")
 
 
-def check_400(ck):
-    R = "C01.bad-request-400"
+def check_400(ck, RP="C01"):
+    R = RP + ".bad-request-400"
     fi = ck.func(H1, "HTTP1Connection._read_message")
     cfg = fi.cfg
     hs = [n for n in cfg.nodes if n.kind == "handler" and any(_is_input_error(nm) for nm in q.handler_names(n.ast)) and n.id in cfg.reachable()]
@@ -968,7 +1057,7 @@ def check_400(ck):
         other = [n for n in cfg.stmt_nodes(lambda n: n.kind == "stmt" and isinstance(n.ast, ast.Return) and not in_h(n)) if n.id in r3]
         ck.ob(R, fi, h, not other, "the handler never falls through to the success return", construct="except HTTPInputError: fall-through")
 
-    R = "C01.loop-stops"
+    R = RP + ".loop-stops"
     lp = ck.func(H1, "HTTP1ServerConnection._server_request_loop")
     lcfg = lp.cfg
     rr = [(n, c) for n, c in call_sites(lp, ".read_response")]
@@ -984,8 +1073,8 @@ def check_400(ck):
         ck.ob(R, lp, c, bool(heads) and not any(h.id in again for h in heads), "another request is read only if the previous message ended cleanly (truthy result); every exception ends the loop")
 
 
-def check_stream_api(ck):
-    R = "C01.stream-api-only"
+def check_stream_api(ck, RP="C01"):
+    R = RP + ".stream-api-only"
     m = ck.repo.module(H1)
     n = 0
     forbidden = {"socket", "read_from_fd", "write_to_fd", "fileno", "close_fd"}
@@ -1000,12 +1089,131 @@ def check_stream_api(ck):
     ck.floor(R, n, 15, "stream attribute uses")
 
 
+NORMALISERS = {
+    "strip", "lstrip", "rstrip", "replace", "lower", "upper", "casefold", "title", "capitalize", "swapcase", "translate", "expandtabs",
+    "split", "rsplit", "splitlines", "partition", "rpartition", "join", "removeprefix", "removesuffix", "zfill", "center", "ljust", "rjust", "format", "sub", "subn",
+}
+
+
+def _expand(e, binds, depth=0, keep=()):
+    """the expression with single-binding local aliases substituted (for inspection only);
+    names in ``keep`` and names bound to an awaited value (stream reads) are left alone"""
+    if depth > 6:
+        return e
+
+    class T(ast.NodeTransformer):
+        def visit_Name(self, n):
+            if isinstance(n.ctx, ast.Load) and n.id in binds and n.id not in keep and not isinstance(binds[n.id], ast.Await):
+                return _expand(binds[n.id], binds, depth + 1, keep)
+            return n
+
+    import copy as _copy
+    return T().visit(_copy.deepcopy(e))
+
+
+def _normaliser_calls(e, allow=lambda c: False):
+    out = []
+    for x in ast.walk(e):
+        if isinstance(x, ast.Call) and isinstance(x.func, ast.Attribute) and x.func.attr in NORMALISERS and not allow(x):
+            out.append(x)
+    return out
+
+
+def _strip_of(chars):
+    """predicate: a strip/lstrip/rstrip call whose single argument is a constant made only of ``chars``"""
+    def ok(c, repo_consts=None):
+        if c.func.attr not in ("strip", "lstrip", "rstrip") or len(c.args) != 1 or c.keywords:
+            return False
+        a = c.args[0]
+        if isinstance(a, ast.Constant) and isinstance(a.value, str) and a.value and set(a.value) <= set(chars):
+            return True
+        return False
+    return ok
+
+
+def check_wire_exact(ck, tree, RP="C01"):
+    """Wire text must reach the validators byte-exact: only the RFC's own trimming (OWS = SP/HTAB around field
+    values, CR/LF around the start line) is applied; nothing is normalised before the strict integer parsers;
+    header lines are separated at LF only."""
+    R = RP + ".wire-text-exact"
+    repo = ck.repo
+    strict = {repo.func(H1, "parse_int"), repo.func(H1, "parse_hex_int")}
+    n = 0
+    for f in sorted(tree.values(), key=lambda f: (f.file, f.qualname)):
+        if f.file != H1:
+            continue
+        binds = single_bindings(f.node)
+        for c in q.calls(f.node):
+            callee = resolve_call(repo, f, c)
+            is_int = isinstance(c.func, ast.Name) and c.func.id == "int" and c.args
+            if (callee in strict or is_int) and c.args:
+                if f in strict:
+                    continue
+                n += 1
+                full = _expand(c.args[0], binds)
+                bad = _normaliser_calls(full)
+                ck.ob(R, f, c, not bad, "the text handed to the strict integer parser is the wire text itself (no %s before validation)" % (", ".join(sorted({b.func.attr for b in bad})) or "strip/replace/lower/split"))
+    ck.floor(R, n, 2, "strict integer parser calls in http1connection.py")
+    # module constant used for OWS trimming
+    hu = repo.module(HU)
+
+    def const_str(e):
+        if isinstance(e, ast.Constant) and isinstance(e.value, str):
+            return e.value
+        if isinstance(e, ast.Name) and e.id in hu.assigns and isinstance(hu.assigns[e.id], ast.Constant) and isinstance(hu.assigns[e.id].value, str):
+            return hu.assigns[e.id].value
+        return None
+
+    def ows_strip(c):
+        return c.func.attr in ("strip", "lstrip", "rstrip") and len(c.args) == 1 and not c.keywords and const_str(c.args[0]) is not None and const_str(c.args[0]) != "" and set(const_str(c.args[0])) <= {" ", "\t"}
+
+    pl = ck.func(HU, "HTTPHeaders.parse_line")
+    binds = single_bindings(pl.node)
+    adds = [c for c in q.calls(pl.node) if q.call_attr(c) == "add" and q.dotted(c.func.value) == "self"]
+    ck.floor(R, len(adds), 1, "self.add calls in parse_line")
+    for c in adds:
+        if len(c.args) < 2:
+            raise AnalysisError("parse_line: add() call of unknown shape")
+        nm, val = _expand(c.args[0], binds), _expand(c.args[1], binds)
+        ck.ob(R, pl, c, not [x for x in ast.walk(nm) if isinstance(x, ast.Call)], "the field name is passed to validation untouched (whitespace before ':' must be rejected, not trimmed)")
+        bad = _normaliser_calls(val, allow=ows_strip)
+        ck.ob(R, pl, c, not bad, "the field value is trimmed of optional whitespace (SP/HTAB) only")
+    for c in q.calls(pl.node):
+        if isinstance(c.func, ast.Attribute) and c.func.attr in ("strip", "lstrip", "rstrip") and not ows_strip(c):
+            ck.ob(R, pl, c, False, "parse_line trims SP/HTAB only (a broader strip would hide control characters from validation)")
+    ph = ck.func(H1, "HTTP1Connection._parse_headers")
+    crlf_strip = lambda c: c.func.attr in ("lstrip", "rstrip", "strip") and len(c.args) == 1 and not c.keywords and isinstance(c.args[0], ast.Constant) and isinstance(c.args[0].value, str) and c.args[0].value != "" and set(c.args[0].value) <= {"\r", "\n"}
+    k = 0
+    for c in q.calls(ph.node):
+        if isinstance(c.func, ast.Attribute) and c.func.attr in NORMALISERS:
+            k += 1
+            ck.ob(R, ph, c, crlf_strip(c), "the header block is only trimmed of CR/LF (blank lines before the start line, the CR of the line end); nothing else is normalised before parsing")
+    ck.floor(R, k, 1, "trimming calls in _parse_headers")
+    # line separation at LF only
+    ps = ck.func(HU, "HTTPHeaders.parse")
+    k = 0
+    for f in (ps, pl, ph):
+        for c in q.calls(f.node):
+            if isinstance(c.func, ast.Attribute) and c.func.attr == "splitlines":
+                ck.ob(R, f, c, False, "header lines are separated at LF only (splitlines() also splits at VT, FF, FS..US, NEL — bytes that may occur inside a field value)")
+            if f is not pl and isinstance(c.func, ast.Attribute) and c.func.attr in ("find", "index", "split") and c.args and isinstance(c.args[0], ast.Constant) and isinstance(c.args[0].value, str):
+                k += 1
+                ck.ob(R, f, c, c.args[0].value == "\n", "lines are located by searching for LF")
+    ck.floor(R, k, 1, "line-separator searches in parse/_parse_headers")
+    env = RegexEnv(repo)
+    eol = [x for x in env.calls(pl) if x[3] is not None and q.dotted(x[3]) == pl.params()[1]]
+    for c, m, pat, subj in eol:
+        w = env.rx(pat, "search").difference_witness(env.rx(r"\r?\n$", "search")) if m == "search" else ("", "not a search")
+        ck.ob(R, pl, c, w is None, "parse_line removes exactly one trailing CR? LF%s" % ("" if w is None else " (differs on %r: %s)" % w))
+
+
 def run(ck):
     ck.rule("C01.header-block-delimiter", "the header block is read up to the first blank line: the read_until_regex delimiter denotes (CR? LF){2}")
     ck.rule("C01.request-line", "parse_request_start_line accepts exactly token SP target SP HTTP/1.x by fullmatch and raises HTTPInputError otherwise")
     ck.rule("C01.header-name", "HTTPHeaders.add stores only names that fullmatch RFC 9110 token; others raise HTTPInputError")
     ck.rule("C01.header-value", "HTTPHeaders.add stores (HTTP mode) only values that fullmatch RFC 9110 field-value; others raise HTTPInputError")
     ck.rule("C01.header-continuation", "obs-fold continuation text is validated as field-value before it is appended; needs a previous header")
+    ck.rule("C01.duplicate-fields-kept", "a repeated header field is appended to the earlier values (never replaces them); the combined value joins with ','; add() always stores")
     ck.rule("C01.strict-header-mode", "the connection parses header blocks in HTTP (latin-1 bytes) validation mode; the mode is forwarded parse -> parse_line -> add")
     ck.rule("C01.header-line-split", "a header line is split at the first ':'; a line without ':' raises HTTPInputError")
     ck.rule("C01.cl-conflict", "a comma-joined Content-Length is used only if all pieces are equal; otherwise HTTPInputError")
@@ -1027,6 +1235,7 @@ def run(ck):
     ck.rule("C01.host-validated", "HTTPServerRequest.__init__: Host fullmatches uri-host[:port], is single, missing only for HTTP/1.0; else HTTPInputError")
     ck.rule("C01.bad-request-400", "the HTTPInputError handler of _read_message writes a 400 (server), closes, returns False, never falls through")
     ck.rule("C01.loop-stops", "_server_request_loop reads another request only after a truthy read_response result")
+    ck.rule("C01.wire-text-exact", "wire text reaches the validators byte-exact: nothing is normalised before the strict integer parsers; only SP/HTAB around field values and CR/LF around the block are trimmed; lines are separated at LF only")
     ck.rule("C01.stream-api-only", "http1connection.py touches the stream only through IOStream's public API")
 
     env = RegexEnv(ck.repo)
@@ -1034,6 +1243,7 @@ def run(ck):
     check_header_block(ck, env)
     check_request_line(ck, env)
     check_header_fields(ck, env)
+    check_multimap_for_framing(ck)
     check_read_body(ck, tree)
     check_transfer_encoding(ck)
     check_ints(ck, env, tree)
@@ -1043,6 +1253,7 @@ def run(ck):
     check_host(ck, env)
     check_400(ck)
     check_stream_api(ck)
+    check_wire_exact(ck, tree)
 
 
 
@@ -1123,6 +1334,25 @@ def _by_line(pred, which, new=None):
     return edit
 
 
+def _cl_alias_replace(root):
+    """cl = headers["Content-Length"].replace("_", ""); ... parse_int(cl)"""
+    for node in ast.walk(root):
+        if isinstance(node, ast.Try) and "parse_int" in ast.unparse(node.body[0]):
+            node.body.insert(0, parse_stmt('cl_text = headers["Content-Length"].replace("+", "")'))
+            for c in ast.walk(node.body[1]):
+                if isinstance(c, ast.Call) and ast.unparse(c.func) == "parse_int":
+                    c.args = [ast.Name(id="cl_text", ctx=ast.Load())]
+                    return True
+    return False
+
+
+def _use_splitlines(root):
+    root.body = [st for st in root.body if not isinstance(st, (ast.While, ast.Return)) and not (isinstance(st, ast.Assign) and ast.unparse(st.targets[0]) == "start")]
+    root.body.append(parse_stmt("for line in headers.splitlines():\n    h.parse_line(line, _chars_are_bytes=_chars_are_bytes)"))
+    root.body.append(parse_stmt("return h"))
+    return True
+
+
 RM = "HTTP1Connection._read_message"
 MUTANTS = [
     ("request line: fullmatch -> match", _m(HU, "parse_request_start_line", _attr_call("fullmatch", "match")), "C01.request-line"),
@@ -1172,6 +1402,19 @@ MUTANTS = [
     ("Host: fullmatch -> match", _m(HU, "HTTPServerRequest.__init__", _attr_call("fullmatch", "match", "host")), "C01.host-validated"),
     ("Host: missing Host tolerated for every version", _m(HU, "HTTPServerRequest.__init__", replace_expr(lambda n: isinstance(n, ast.Compare) and "HTTP/1.0" in _u(n), lambda n: ast.Constant(value=True))), "C01.host-validated"),
     ("uri_host allows '/' and '@'", _abnf("uri_host", 're.compile(rf"(?:[\\[\\]:/@]|{uri_unreserved.pattern}|{uri_sub_delims.pattern}|{uri_pct_encoded.pattern})*")'), "C01.host-validated"),
+    ("F24 repair undone: split_host_and_port converts the unbounded port without a ValueError handler", _m(HU, "split_host_and_port", _unwrap_try(lambda t: "int(" in _u(t.body[0]))), "C01.int-no-crash"),
+    ("chunk size line cleaned with .strip() instead of cutting the CRLF (whitespace-padded sizes accepted)", _m(H1, "HTTP1Connection._read_chunked_body", replace_expr(lambda n: isinstance(n, ast.Call) and _u(n.func) == "native_str" and "[:-2]" in _u(n), lambda n: parse_expr("native_str(chunk_len_str).strip()"))), ("C01.wire-text-exact", "C01.chunk-size-line")),
+    ("Content-Length value stripped of all whitespace before parse_int", _m(H1, "HTTP1Connection._read_body", replace_expr(lambda n: isinstance(n, ast.Call) and _u(n.func) == "parse_int", lambda n: parse_expr('parse_int(headers["Content-Length"].strip())'))), ("C01.wire-text-exact", "C01.cl-integer")),
+    ("Content-Length underscores/plus removed before parse_int (local alias)", _m(H1, "HTTP1Connection._read_body", _cl_alias_replace), "C01.wire-text-exact"),
+    ("parse_line trims the value with a bare .strip() (VT/FF/NBSP hidden from validation)", _m(HU, "HTTPHeaders.parse_line", replace_expr(lambda n: isinstance(n, ast.Call) and _u(n) == "value.strip(HTTP_WHITESPACE)", lambda n: parse_expr("value.strip()"))), "C01.wire-text-exact"),
+    ("parse_line trims the field name ('Content-Length : 5' accepted)", _m(HU, "HTTPHeaders.parse_line", replace_expr(lambda n: isinstance(n, ast.Call) and _u(n.func) == "self.add", lambda n: ast.Call(func=n.func, args=[parse_expr("name.rstrip()")] + n.args[1:], keywords=n.keywords))), "C01.wire-text-exact"),
+    ("_parse_headers strips the start line of all whitespace", _m(H1, "HTTP1Connection._parse_headers", replace_expr(lambda n: isinstance(n, ast.Call) and _u(n).endswith(".rstrip('\\r')"), lambda n: ast.Call(func=ast.Attribute(value=n.func.value, attr="strip", ctx=ast.Load()), args=[], keywords=[]))), "C01.wire-text-exact"),
+    ("HTTPHeaders.parse separates lines with splitlines()", _m(HU, "HTTPHeaders.parse", _use_splitlines), "C01.wire-text-exact"),
+    ("HTTPHeaders.add: a repeated field replaces the earlier value (last Content-Length wins)", _m(HU, "HTTPHeaders.add", replace_stmt(lambda st: isinstance(st, ast.If) and _u(st.test) == "norm_name in self", lambda st: list(st.orelse))), "C01.duplicate-fields-kept"),
+    ("HTTPHeaders.add: repeated field test inverted", _m(HU, "HTTPHeaders.add", replace_expr(lambda n: isinstance(n, ast.Compare) and _u(n) == "norm_name in self", lambda n: parse_expr("norm_name not in self"))), "C01.duplicate-fields-kept"),
+    ("HTTPHeaders.__getitem__ joins repeated values with ';'", _m(HU, "HTTPHeaders.__getitem__", replace_expr(lambda n: isinstance(n, ast.Constant) and n.value == ",", lambda n: ast.Constant(value=";"))), "C01.duplicate-fields-kept"),
+    ("HTTPHeaders.add forgets to update _last_key (continuation lines extend an earlier field)", _m(HU, "HTTPHeaders.add", remove_stmts(lambda st: isinstance(st, ast.Assign) and "_last_key" in _u(st))), "C01.header-continuation"),
+    ("Content-Length list also split at blanks ('5 5' accepted)", _m(H1, "HTTP1Connection._read_body", replace_expr(lambda n: isinstance(n, ast.Constant) and n.value == ",\\s*", lambda n: ast.Constant(value="[,\\s]\\s*"))), "C01.cl-conflict"),
     ("http1connection peeks into the stream's private buffer", _m(H1, "HTTP1Connection._read_fixed_body", replace_stmt(lambda st: isinstance(st, ast.AugAssign), lambda st: [st, parse_stmt("if self.stream._read_buffer_size: pass")])), "C01.stream-api-only"),
 ]
 
